@@ -44,7 +44,6 @@ static ssize_t verif_recv(int fd, void *buf, size_t n, int flags)
 	return (ssize_t)k;
 }
 #define recv verif_recv
-void qb_sigpipe_ctl(enum qb_sigpipe_ctl ctl);
 #include "/repo/lib/ipc_socket.c"
 /* NB: the macro also renames the struct member funcs.recv consistently in both units */
 void qb_sigpipe_ctl(enum qb_sigpipe_ctl ctl) { (void)ctl; }
